@@ -104,13 +104,21 @@ class C07(Prop):
             "45% deterministic scripts (2..5 connections on one RouterHandler, buflen 1..3, 8..31 client operations "
             "REQ/EVENT/CLOSE/COUNT/disconnect/pause-reader/resume-reader executed one at a time, about 7% of them "
             "followed by an immediate disconnect without waiting for the reply, a paused reader that disconnects "
-            "mostly does so without reading what is pending, subscription ids "
+            "mostly does so without reading what is pending; a connection whose reader is paused still sends: 30% of "
+            "the operations drawn for it are handed to the relay without waiting for the reply (hop flag p, Coq DPend; "
+            "REQ/EVENT/COUNT, or CLOSE whose acknowledging COUNT is then the operation in flight), at most one per "
+            "pause because the session takes nothing more until its reply is read; the reply is awaited and stamped "
+            "when the reader resumes and stays missing when the client leaves without reading; subscription ids "
             "from {a,b,c} shared by all connections, filters from the C02 universe incl. match-all and limits, every "
             "publication with its own id), 15% deterministic connection-churn scripts (same executor; a weighted "
             "random walk over the same operations plus 'open': 2..5 connections exist from the start, 1..3 more "
             "connect to the same router later, typically after subscribers that had stopped reading have left with "
-            "their deliveries unread), 40% concurrent histories (2..8 connections, buflen 1..4, each client "
-            "issuing 4..17 operations at its own pace, readers fast / jittery / bursty / stalled; 30% of them with a "
+            "their deliveries unread; 30% of its REQs and 8% of its EVENTs are sent by a subscriber that has stopped "
+            "reading, if there is one without an operation in flight), 40% concurrent histories (2..8 connections, buflen 1..4, each client "
+            "issuing 4..17 operations at its own pace, readers fast / jittery / bursty / stalled; half of the stalled "
+            "subscribers and 20% of the other clients end their script by stopping to read and sending one more "
+            "message (70% REQ, 20% EVENT, 10% COUNT) whose reply is read only in the final phase or never, half of "
+            "the latter resume and publish up to two more events; 30% of them with a "
             "second generation: stalled subscribers leave when the first generation's scripts are over and 1..3 new "
             "connections connect and run scripts of their own); every case ends "
             "with a flush (sentinel publications until every open connection has received one) and a reading of the "
@@ -133,6 +141,10 @@ class C07(Prop):
         "over what is still queued a little longer, if the client keeps reading); the client sends nothing after its "
         "disconnect",
         "Go's writer preference of RWMutex is not modelled (it only removes schedules)",
+        "an operation handed over by a client that is not reading: the script goes on when the goroutine of that "
+        "session is seen parked below ServeNostr in a goroutine dump (bounded wait; scheduling aid of the "
+        "deterministic layer only, nothing is recorded); should it be held up all the same, the model is also tried "
+        "with the registry work of one such operation done just before the k-th later operation instead of at once",
         "a reply that does not arrive within 10 s, or a flush that does not get through within 40 rounds and 3 s, is recorded as missing",
     ]
 
@@ -162,6 +174,7 @@ class C07(Prop):
             return {"k": "crash", "race": c.get("race"), "msg": (c.get("msg") or "")[:400]}
         n, cross = _deliveries(c)
         return {"k": c["k"], "buf": c["buf"], "nc": c["nc"], "operations": len(c.get("hops") or []),
+                "sent_while_not_reading": sum(1 for h in c.get("hops") or [] if h.get("p")),
                 "messages_received": sum(len(o) for o in c.get("outs") or []), "live_deliveries": n,
                 "cross_connection_deliveries": cross, "reg_end": c.get("reg_end"), "subs_end": c.get("subs_end")}
 
@@ -229,7 +242,12 @@ class C07(Prop):
              "stalled_or_slow_readers": 0, "flush_publications": 0, "stuck": 0,
              "late_connections": 0, "late_connections_after_somebody_left": 0, "stalled_disconnects": 0,
              "stalled_disconnects_with_publications_unread": 0, "late_connection_after_such_a_disconnect": 0,
-             "conc_with_second_generation": 0}
+             "conc_with_second_generation": 0,
+             "sent_while_not_reading": 0, "sent_while_not_reading_req": 0, "sent_while_not_reading_event": 0,
+             "sent_while_not_reading_count": 0, "sent_while_not_reading_reply_read_after_resume": 0,
+             "sent_while_not_reading_reply_never_read": 0,
+             "publications_of_others_while_a_req_was_in_flight_unread": 0,
+             "copies_received_for_a_req_whose_eose_was_still_unread_at_publication": 0}
         for c in cases:
             d[c["k"]] = d.get(c["k"], 0) + 1
             if c["k"] == "crash":
@@ -244,7 +262,29 @@ class C07(Prop):
             last_pause = {}
             pubs_at = []
             second = False
-            for h in c.get("hops") or []:
+            hops = c.get("hops") or []
+            for h in hops:
+                if not h.get("p"):
+                    continue
+                d["sent_while_not_reading"] += 1
+                d["sent_while_not_reading_" + h["o"]] = d.get("sent_while_not_reading_" + h["o"], 0) + 1
+                if h.get("d") is None:
+                    d["sent_while_not_reading_reply_never_read"] += 1
+                else:
+                    d["sent_while_not_reading_reply_read_after_resume"] += 1
+                if h["o"] != "req":
+                    continue
+                end = h["d"] if h.get("d") is not None else min(
+                    [k["b"] for k in hops if k["o"] == "disc" and k["c"] == h["c"] and k["b"] > h["b"]] or [1 << 62])
+                ids = set()
+                for k in hops:
+                    if k["o"] == "event" and k["c"] != h["c"] and h["b"] < k["b"] < end and k["e"]["pk"] != FLUSH_PK:
+                        d["publications_of_others_while_a_req_was_in_flight_unread"] += 1
+                        ids.add(k["e"]["id"])
+                out = (c.get("outs") or [])[h["c"]] if h["c"] < len(c.get("outs") or []) else []
+                d["copies_received_for_a_req_whose_eose_was_still_unread_at_publication"] += sum(
+                    1 for m in out if m["t"] == "event" and m.get("sub") == h.get("sub") and m["e"]["id"] in ids)
+            for h in hops:
                 o = h["o"]
                 if o == "open":
                     d["late_connections"] += 1
